@@ -74,6 +74,10 @@ CHECKS = {
    text="For distinct reachable stores of Chain.tla (stale and orphan headers present, zero-work and boundary field values) TLC emits the expected export (longest chain by height) and the verdict table of the import for every newest-checkpoint height x every single-row corruption class (malformed number/columns/hash, changed field, dropped row, duplicated row) x every row position; the harness runs database.ExportHeaders on the replayed store, compares the CSV row by row, imports each (corrupted) file into a fresh SQLite database with database.Init(prepared_db) and compares: accepted imports reproduce hashes, heights, fields, cumulative work, all LONGEST_CHAIN; refused imports fail start-up AND a second start on the same database fails too; a populated or genesis-only database is never touched by an import.",
    technique="explicit TLA+ spec (Chain.tla store + import verdict operator in MC_Chain.tla) enumerated by TLC; export/import of every sampled store and corruption replayed on the real exporter/importer",
    note=TB + " Stores are sampled from the exhaustive enumeration (100 quick / 6000 thorough) because each import needs a fresh database."),
+ "C18": dict(cat="model_checking", ref="DESIGN.md §5 C18",
+   text="Admission.tla (peer set, ban entries, derived per-host / per-group / total counters) is model-checked exhaustively with small constants (TotalAtMostMaxPeers, PerHostAtMostLimit, NoAdmissionWhileBanned, AdmittedAgainAfterExpiry, CountersReturnToZero) and simulated at the code's constants (125 peers, 5 per host, up to 30 hosts, depth 420); the behaviours are replayed on the real handleAddPeerMsg / handleDonePeerMsg / handleBanPeerMsg (overlay test file in package p2p) with peers that completed a real version handshake; return value, Connected() and all three counter maps are compared after every step. ConnMgr.tla models the outbound connection manager (invariants SlotsNeverLost, OpenAtMostTarget, liveness BackToTarget under fairness; TLC must find the violation under the BanLosesSlot deviation); the REAL connmgr is driven with scripted Dial / GetNewAddress / BanAddress / disconnect requests (target 1..8, 1 ms retry), events are logged under one mutex and validated by TLC against Trace_ConnMgr.tla (never above target, ban only after 25 consecutive failures, back at target at every quiescent point).",
+   technique="explicit TLA+ specs (Admission.tla, ConnMgr.tla) model-checked by TLC incl. liveness; TLC behaviours replayed on the real admission handlers; recorded connmgr executions validated by TLC",
+   note="Ban expiry uses a 150 ms ban and real sleeps (timing-unreliable steps are abandoned, never reported). Persistent peers are exempt from the per-host counter as in the code."),
 }
 
 NA = []
